@@ -11,6 +11,7 @@ import (
 	"math/rand"
 
 	"github.com/osmosis-labs/osmosis/osmomath"
+	clkeeper "github.com/osmosis-labs/osmosis/v31/x/concentrated-liquidity"
 	clmath "github.com/osmosis-labs/osmosis/v31/x/concentrated-liquidity/math"
 	"github.com/osmosis-labs/osmosis/v31/x/concentrated-liquidity/swapstrategy"
 	cltypes "github.com/osmosis-labs/osmosis/v31/x/concentrated-liquidity/types"
@@ -160,6 +161,35 @@ func runCLMath(seed int64, n int, dir string) {
 			}
 			o.Emit(line, obsInt(ok, r), true)
 			o.Count("op.nextsp")
+		case k < 30: // per-step spread reward growth
+			charge := new(big.Int).Mul(big.NewInt(int64(g.Intn(1000000))), pow10(g.Intn(19)))
+			if g.Intn(3) == 0 {
+				charge = g.randBits(1 + g.Intn(120))
+			}
+			scale := new(big.Int).Set(p18)
+			if g.Intn(2) == 0 {
+				scale = clkeeper.VerifPerUnitLiqScalingFactor().BigInt()
+			}
+			l := liq
+			if g.Intn(15) == 0 {
+				l = big.NewInt(0)
+			}
+			var r *big.Int
+			var err error
+			ok := catch(func() {
+				var d osmomath.Dec
+				d, err = clkeeper.VerifSpreadGrowth(sd(charge), sd(l), sd(scale))
+				r = d.BigInt()
+			})
+			line := fmt.Sprintf("cl growth %s %s %s", charge, l, scale)
+			o.Emit(line, obsInt(ok && err == nil, r), true)
+			o.Count("op.growth")
+			if ok && err == nil && l.Sign() > 0 {
+				// credited growth x active liquidity never exceeds the scaled charge
+				if new(big.Int).Mul(r, l).Cmp(new(big.Int).Mul(charge, scale)) > 0 {
+					o.Fail("rewards:growth-times-liquidity>charge", line)
+				}
+			}
 		case k < 34: // liquidity from amounts
 			a0 := g.randBits(1 + g.Intn(100))
 			a1 := g.randBits(1 + g.Intn(100))
